@@ -397,6 +397,8 @@ def inject_fn(em, module, vc, header, body, is_trait_impl, struct_name):
             raise ExtractError('placeholder outside update in %s::%s' % (module, name))
         em_add(text, info)
     em.add = add_sub
+    rlim = vc.get('rlimit ' + name)
+    if rlim: em.add('    #[verifier::rlimit(%d)]' % int(rlim.strip()))
     em.add('    ' + hdr)
     ctext = vget('fn ' + name)
     if ctext:
